@@ -20,6 +20,7 @@ was false on the code (finding F02: allow, 24 h of silence, pass — corpus/conn
 examples at the end replay that history on the model of the fixed code.
 -/
 import Nebula.Lemmas.FwHist
+import Nebula.Lemmas.FwLive
 
 namespace Nebula.Props.C18
 open Nebula.Net Nebula.Fw Nebula.Lemmas.Fw
@@ -109,6 +110,43 @@ theorem refused_until_rule_allows (fw : Fw) (period : Nat) (hv : fw.rulesVersion
         have : w ∈ mid := by rw [hmid', hrest.1]; simp
         exact hmid w this hwp hwv
 
+/-- **live_flow_passes** (the other direction: flows expire *only* when idle). In every history of packets, idle
+gaps and reloads (routine cache off): a packet `e` that gets past the address checks passes whenever the most
+recent packet `w` of its tuple that got past them passed less than `w`'s protocol timeout ago — so, by induction,
+whenever every gap since an allowed packet was below the timeout —, provided the version counter did not wrap in
+between (finding F16) and either no reload happened since `w` or the current rules still allow the flow in the
+direction of every rule-allowed packet it may stem from. The timer wheel plays no part: the statement holds for
+any tick / span the wheel was built with. -/
+theorem live_flow_passes (fw : Fw) (hv : fw.rulesVersion < 65536) (ops : List Op)
+    (pre post : List Event) (e : Event)
+    (hrun : ((Sys.new fw 0).run ops).2 = pre ++ e :: post)
+    (hreached : e.verdict = .pass ∨ e.verdict = .noRule)
+    (w : Event) (hw : LastCT post e.pkt w) (hwp : w.verdict = .pass)
+    (hfresh : e.time < w.time + w.fw.timeoutFor e.pkt.proto)
+    (hnowrap : w.fw.rulesVersion + (e.reloads - w.reloads) < 65536)
+    (hkeep : w.reloads = e.reloads
+      ∨ ∀ o, Witness post e.pkt o → o.ruleAllowed = true →
+          (e.fw.table o.incoming).matches e.pkt o.incoming e.host.peer = true) :
+    e.verdict = .pass := by
+  refine run_all_live
+    (fun evs x => (x.verdict = .pass ∨ x.verdict = .noRule) →
+      ∀ w, LastCT evs x.pkt w → w.verdict = .pass → x.time < w.time + w.fw.timeoutFor x.pkt.proto →
+        w.fw.rulesVersion + (x.reloads - w.reloads) < 65536 →
+        (w.reloads = x.reloads ∨ ∀ o, Witness evs x.pkt o → o.ruleAllowed = true →
+            (x.fw.table o.incoming).matches x.pkt o.incoming x.host.peer = true) →
+        x.verdict = .pass)
+    ?_ fw hv ops pre e post hrun hreached w hw hwp hfresh hnowrap hkeep
+  intro s evs op hI hL _ x hx
+  cases op with
+  | sleep d => simp [Sys.step] at hx
+  | reload f => simp [Sys.step] at hx
+  | packet p incoming h =>
+    rw [step_packet] at hx
+    simp only [Option.some.injEq] at hx
+    subst hx
+    intro hr w hw hwp hf hn hk
+    exact packet_live s evs p incoming h hI hL (packet_reached_addr s p incoming h hr) w hw hwp hf hn hk
+
 /-- **Expiry at lookup (the F02 fix), for every state.** Whatever the timer wheel has or has not done: an entry
 whose `Expires` has passed does not let its tuple through `inConns`, and it is gone afterwards. -/
 theorem expired_entry_not_honoured (fw : Fw) (ct : Conntrack) (now : Nat) (cache : Cache) (p : Packet) (pr : Peer)
@@ -163,6 +201,10 @@ example : verdicts [.packet dns true exHost, .sleep 30000000000, .packet dns fal
 example : verdicts [.packet dns true exHost, .sleep 86400000000000, .packet dns false exHost] = [.pass, .noRule] := by decide
 example : verdicts [.packet dns true exHost, .sleep 59999999999, .packet dns false exHost] = [.pass, .pass] := by decide
 example : verdicts [.packet dns true exHost, .sleep 60000000000, .packet dns false exHost] = [.pass, .noRule] := by decide
+-- a never-idle flow across a reload that keeps its rule: three packets 59.999999999 s apart (timeout 60 s), the
+-- reload between the first two — all pass (`live_flow_passes`; seeded change C18-2 drops the third)
+example : verdicts [.packet dns true exHost, .reload exFw, .sleep 59999999999, .packet dns false exHost,
+    .sleep 59999999999, .packet dns false exHost] = [.pass, .pass, .pass] := by decide
 -- the premises of `pass_implies_fresh` hold for the second event of the first history
 example : exFw.rulesVersion < 65536 := by decide
 example : ((exFw.table false).matches dns false exHost.peer) = false := by decide
